@@ -20,7 +20,8 @@ import vlib
 
 def run(c):
     drv = c.build("pathmeta")
-    c.mc("PathMeta", "PathMetaMC.%s.cfg" % c.tier, timeout=3000)
+    if not c.replay:
+        c.mc("PathMeta", "PathMetaMC.%s.cfg" % c.tier, timeout=3000)
     files = []
     if c.replay:
         files = [c.replay]
